@@ -21,6 +21,7 @@ TextCells == {
   [id |-> "comma", blank |-> FALSE],
   [id |-> "quote", blank |-> FALSE],
   [id |-> "nl", blank |-> FALSE],
+  [id |-> "nlend", blank |-> FALSE],
   [id |-> "uni", blank |-> FALSE],
   [id |-> "semi", blank |-> FALSE],
   [id |-> "empty", blank |-> TRUE],
